@@ -951,6 +951,24 @@ func (ai *AI) inline(cal *ssa.Function, call *ssa.Call, args []*AV, s *aiState) 
 			if a.K == 'p' {
 				pk := "P:" + cal.Name() + "." + p.Name()
 				ck := ai.ptrKey(call.Call.Args[i], s)
+				// the pointee stored as one struct value (`*t0 = params`): its fields are the callee's field cells
+				if whole := s.mem[ck]; whole != nil && whole.K == 'S' {
+					var expand func(prefix string, v *AV, d int)
+					expand = func(prefix string, v *AV, d int) {
+						if v == nil || d > 3 {
+							return
+						}
+						for fname, fv := range v.F {
+							if _, has := entry.mem[prefix+"."+fname]; !has {
+								entry.mem[prefix+"."+fname] = fv
+							}
+							if fv != nil && fv.K == 'S' {
+								expand(prefix+"."+fname, fv, d+1)
+							}
+						}
+					}
+					expand(pk, whole, 0)
+				}
 				for k, v := range s.mem {
 					if strings.HasPrefix(k, ck+".") {
 						entry.mem[pk+k[len(ck):]] = v
